@@ -8,6 +8,7 @@ from __future__ import annotations
 
 import itertools
 import math
+import shutil
 import threading
 from fractions import Fraction
 
@@ -122,7 +123,17 @@ def weight_case(draw, max_n=120, forms=("float",)):
         ws[i] = {"t": "raw", "v": a + e}
     elif mode == "allmissing":
         ws = [{"t": "missing"} for _ in range(n)]
-    return {"weights": ws}
+    case = {"weights": ws}
+    # the same mapping listed in another order / without entries for the stages that give no weight
+    how = draw(st.sampled_from(["asc", "asc", "perm", "rev", "omit", "perm+omit"]))
+    if n >= 2 and how != "asc":
+        if how == "rev":
+            case["order"] = list(range(n - 1, -1, -1))
+        elif how.startswith("perm"):
+            case["order"] = list(draw(st.permutations(list(range(n)))))
+        if how.endswith("omit"):
+            case["omit_missing"] = True
+    return case
 
 
 def classify(ws):
@@ -141,12 +152,17 @@ def classify(ws):
 
 
 # ------------------------------------------------------------------------------------------------------------
-def flowir_for(ws):
-    comps = [{"name": "c%d" % i, "stage": i, "command": {"executable": "echo", "arguments": "hi"}}
-             for i in range(len(ws))]
+def flowir_for(ws, order=None, omit_missing=False, ncomps=None):
+    """`order`: listing order of the status-report entries (a permutation of the stage indices; the document is the same
+    mapping); `omit_missing`: stages without a weight get no entry at all instead of an empty one."""
+    comps = [{"name": "c%d%s" % (i, "" if k == 0 else "x%d" % k), "stage": i,
+              "command": {"executable": "echo", "arguments": "hi"}}
+             for i in range(len(ws)) for k in range((ncomps or [1] * len(ws))[i])]
     status = {}
-    for i, w in enumerate(ws):
-        v = _render(w)
+    for i in (order if order is not None else range(len(ws))):
+        v = _render(ws[i])
+        if v is None and omit_missing:
+            continue
         status[i] = {} if v is None else {"stage-weight": v}
     return {"components": comps, "status-report": status}
 
@@ -175,14 +191,19 @@ def check_output_weights(out, ws, where):
     return kind
 
 
+def _listing(case):
+    return dict(order=case.get("order"), omit_missing=bool(case.get("omit_missing")))
+
+
 def check_weights(case, ctx: Ctx):
     import experiment.model.frontends.flowir as F
     ws = case["weights"]
-    concrete = F.FlowIRConcrete(flowir_for(ws), None, None)
+    concrete = F.FlowIRConcrete(flowir_for(ws, **_listing(case)), None, None)
     status = concrete.get_status()
     out = [status[i]["stage-weight"] for i in range(len(ws))]
     kind = check_output_weights(out, ws, "flowir")
-    ctx.rec.label("kind:" + kind, "n>=3" if len(ws) >= 3 else "n<3")
+    ctx.rec.label("kind:" + kind, "n>=3" if len(ws) >= 3 else "n<3",
+                  "listing:" + ("permuted" if case.get("order") else "ascending") + ("+omitted" if case.get("omit_missing") else ""))
     if len(ws) >= 2 and any(w["t"] != "missing" for w in ws) and kind != "ambiguous":
         ctx.rec.nt(["w", [_render(w) for w in ws]], {"given": [_render(w) for w in ws], "kind": kind, "out": out},
                    group="weights")
@@ -241,7 +262,7 @@ def check_monitor(case, ctx: Ctx):
     loc = ctx.mkdtemp()
     import experiment.model.errors
     try:
-        exp = pkg.experiment_from_flowir(flowir_for(ws), loc)
+        exp = pkg.experiment_from_flowir(flowir_for(ws, **_listing(case)), loc)
     except experiment.model.errors.ExperimentInvalidConfigurationError as e:
         if all(isinstance(_render(w), float) or _render(w) is None for w in ws):
             raise Violation("float-weights-rejected", "given %s: %s" % ([_render(w) for w in ws], str(e)[-300:]))
@@ -288,6 +309,131 @@ def check_monitor(case, ctx: Ctx):
         mon.kill()
     except Exception:
         pass
+
+
+# ------------------------------------------------------------------------------------------------------------
+# sub `controller`: the real Controller's bookkeeping (get_stages_in_transit / get_stages_finished / get_stage_status)
+# feeding the real CheckStatus, over generated combinations of component states: which stage is current, which
+# components reached which state, and which of the final ones the controller has already observed (comp_done).
+COMP_STATES = ["unset", "running", "finished", "finished", "failed", "shutdown"]
+
+
+@st.composite
+def controller_case(draw):
+    c = draw(weight_case(max_n=5, forms=("float",)))
+    n = len(c["weights"])
+    ncomps = [draw(st.integers(1, 3)) for _ in range(n)]
+    cur = draw(st.integers(0, n - 1))
+    mode = draw(st.sampled_from(["any", "any", "sequential", "complete"]))
+    comps = []
+    for i in range(n):
+        row = []
+        for k in range(ncomps[i]):
+            if i > cur:
+                row.append(["unset", False])                 # stages after the current one are not initialised
+            elif mode == "complete" or (mode == "sequential" and i < cur):
+                row.append(["finished", True])
+            else:
+                state = draw(st.sampled_from(COMP_STATES))
+                observed = state in ("finished", "failed", "shutdown") and draw(st.booleans())
+                row.append([state, observed])
+        comps.append(row)
+    if mode == "complete":
+        cur = n - 1
+        comps = [[["finished", True] for _ in row] for row in comps]
+    c.update({"ncomps": ncomps, "current": cur, "comps": comps})
+    return c
+
+
+def check_controller(case, ctx: Ctx):
+    import networkx
+    import experiment.model.codes as codes
+    import experiment.model.errors
+    import experiment.runtime.control as control
+    import experiment.runtime.monitor
+    import experiment.runtime.output
+    import experiment.runtime.workflow as workflow
+    from ..gen import pkg
+    from ..rt import kernel as K
+    from ..rt.driver import FakeStatusDB
+    ws = case["weights"]
+    kind, _ = classify(ws)
+    if kind == "ambiguous":
+        ctx.rec.label("controller:ambiguous-weights-skipped")
+        return
+    loc = ctx.mkdtemp()
+    K.new_case()                     # no real threads: the runtime's pools are the deterministic kernel's
+    try:
+        try:
+            exp = pkg.experiment_from_flowir(flowir_for(ws, ncomps=case["ncomps"], **_listing(case)), loc)
+        except experiment.model.errors.ExperimentInvalidConfigurationError:
+            ctx.rec.label("controller:malformed-rejected")
+            return
+        cs = {}
+        for name in networkx.topological_sort(exp.graph):
+            data = exp.graph.nodes[name]
+            spec = data["componentSpecification"]
+            job = exp._stages[data["stageIndex"]].jobWithName(spec.identification.componentName)
+            cs[name] = workflow.ComponentState(job, exp.experimentGraph, create_engine=True)
+        ctrl = control.Controller(exp)
+        cur = case["current"]
+        for i in range(cur + 1):
+            ctrl.initialise(exp._stages[i], FakeStatusDB())
+        STATE = {"running": codes.RUNNING_STATE, "finished": codes.FINISHED_STATE, "failed": codes.FAILED_STATE,
+                 "shutdown": codes.SHUTDOWN_STATE}
+        for i, row in enumerate(case["comps"]):
+            for k, (state, observed) in enumerate(row):
+                ref = "stage%d.c%d%s" % (i, i, "" if k == 0 else "x%d" % k)
+                if state != "unset":
+                    cs[ref].controllerState = STATE[state]
+                if observed:
+                    ctrl.comp_done.add(ref)
+        mon = experiment.runtime.output.StatusMonitor(exp, report_components=False)
+        w = list(mon.stageWeights)
+        captured = []
+        orig = experiment.runtime.monitor.CreateMonitor
+        experiment.runtime.monitor.CreateMonitor = lambda interval, action, **kw: (captured.append(action) or (lambda: None))
+        try:
+            mon.run(ctrl)
+        finally:
+            experiment.runtime.monitor.CreateMonitor = orig
+        if not captured:
+            raise RuntimeError("harness: StatusMonitor.run did not create a monitor")
+        mon._status_database = None
+        captured[0](False)
+        total = mon.statusFile.totalProgress()
+        # the statement's reading: weighted sum of per-stage progress; a stage whose components were all observed counts
+        # in full, any other stage counts with the fraction of its components that FINISHED (0 when not initialised)
+        model = []
+        for i, row in enumerate(case["comps"]):
+            frac = sum(1 for st_, _ in row if st_ == "finished") / float(len(row)) if i <= cur else 0.0
+            done = all(obs for _, obs in row)
+            model.append(w[i] * (1.0 if (done and i != cur) else frac))
+        model = math.fsum(model)
+        complete = all(st_ == "finished" and obs for row in case["comps"] for st_, obs in row)
+        unobserved_final_elsewhere = any(st_ in ("finished", "failed", "shutdown") and not obs
+                                         for i, row in enumerate(case["comps"]) if i != cur for st_, obs in row)
+        desc = "weights %s current %d components %s -> total %r (in transit %s, finished %s)" % (
+            w, cur, case["comps"], total, ctrl.get_stages_in_transit(), ctrl.get_stages_finished())
+        if not (-TOL <= total <= 1 + TOL):
+            raise Violation("total-progress-out-of-range@controller", desc)
+        if complete and abs(total - 1.0) > TOL:
+            raise Violation("total-progress-not-one-when-complete@controller", desc)
+        if abs(total - model) > 1e-9:
+            raise Violation("total-progress-not-weighted-sum@controller", desc + " model %r" % model)
+        ctx.rec.label("controller:complete" if complete else "controller:in-progress",
+                      "controller:unobserved-final-in-other-stage" if unobserved_final_elsewhere else
+                      "controller:observed-consistent")
+        if len(ws) >= 2 and not complete:
+            ctx.rec.nt(["ctl", [_render(x) for x in ws], cur, case["comps"]],
+                       {"stageWeights": w, "current": cur, "components": case["comps"], "total": total},
+                       group="controller")
+    finally:
+        try:
+            mon.kill()
+        except Exception:
+            pass
+        shutil.rmtree(loc, ignore_errors=True)
 
 
 # ------------------------------------------------------------------------------------------------------------
@@ -340,8 +486,9 @@ def exhaustive_small(ctx: Ctx):
 def shard(ctx: Ctx):
     explore(ctx, "weights", weight_case(), check_weights, ctx.n(6000, 400000), batch=1000)
     explore(ctx, "monitor", monitor_case(), check_monitor, ctx.n(240, 8000), batch=60)
+    explore(ctx, "controller", controller_case(), check_controller, ctx.n(240, 8000), batch=60)
     exhaustive_small(ctx)
 
 
 def replay(sub, case, ctx: Ctx):
-    {"weights": check_weights, "monitor": check_monitor}[sub or "weights"](case, ctx)
+    {"weights": check_weights, "monitor": check_monitor, "controller": check_controller}[sub or "weights"](case, ctx)
